@@ -105,7 +105,7 @@ def run_codec_tables(R, tonic, tag='', rule='C01.R3'):
                 for ob in oks:
                     R.check(b.dominates(ab, ob), rule, '%s:advance-before-ok%s' % (role, tag), site(b, ob), 'advance dominates the Ok return')
                 for eb in errs:
-                    R.check(ab not in b.reachable(eb) and not b.dominates(ab, eb), rule, '%s:no-advance-on-error%s' % (role, tag), site(b, eb), 'error return is not preceded by advance')
+                    R.check(ab not in b.reach_ps(eb) and not b.dominates(ab, eb), rule, '%s:no-advance-on-error%s' % (role, tag), site(b, eb), 'error return is not preceded by advance')
             if enabled:
                 R.floor(rule, '%s Ok returns%s' % (role, tag), len(oks), 1)
         R.floor(rule, 'compress rows' + tag, len(tables.get('compress', {})), len(enabled))
@@ -130,7 +130,7 @@ def run_layout(R, tonic):
             for d, nm in zip(pw, ('flag', 'length')):
                 R.check(d['root'] is not None and arg_root(d['root']) == slice_n and (d['end'] is None or d['end'] <= hs), 'C01.R1', '%s-into-header-region' % nm, site(fe, d['bb']), '%s is written at offset %s of the slice parameter (header region ends at %s)' % (nm, d['off'], d['end']))
             flag = bool_source(pw[0]['value'])
-            fe_enc = locs_of_type(tonic, fe, r'Option<.*CompressionEncoding>')
+            fe_enc = locs_of_type(tonic, fe, enc_opt_pat(tonic))
             fe_bool = locs_of_type(tonic, fe, r'^bool$')
             okf = flag is not None and ((is_call(flag, name='is_some') and loc_of(strip_refs(flag[2][0])) in fe_enc) or (loc_of(flag) in fe_bool))
             R.check(okf, 'C01.R1', 'flag=is_some(encoding)', site(fe, pw[0]['bb']), 'flag byte = (is_some(encoding) | a bool parameter) as u8: %s' % show(pw[0]['value'])[:100])
@@ -145,7 +145,7 @@ def run_layout(R, tonic):
         am = [(bb, t) for bb, t in ei.calls(name='advance_mut') if const_val(ei.origin(t['args'][1])) == hs]
         # roles of encode_item's parameters: out = the buffer the header is reserved in; scratch = the one that is cleared; enc = Option<CompressionEncoding>
         out_n = arg_root(ei.origin(am[0][1]['args'][0])) if am else None
-        enc_loc = loc_of_type(tonic, ei, r'Option<.*CompressionEncoding>')
+        enc_loc = loc_of_type(tonic, ei, enc_opt_pat(tonic))
         lb = [(bb, t) for bb, t in ei.calls(name='len') if arg_root(ei.origin(t['args'][0])) == out_n]
         encs = ei.calls(pat='Encoder::encode')
         R.check(len(am) == 1 and len(rs) == 1, 'C01.R1', 'header-reserved', site(ei), 'reserve(HEADER_SIZE): %d, advance_mut(HEADER_SIZE): %d' % (len(rs), len(am)))
@@ -166,7 +166,7 @@ def run_layout(R, tonic):
                 R.check(ei.dominates(eb, fb) or True, 'C01.R1', 'payload-before-finish', site(ei, fb), 'prefix is written after the payload')
             via = loc_through_call(ei, ft, flag_src) if flag_src else None
             fa = via[1] if via else None
-            okfa = via is not None and ((via[0] == 'loc' and via[1] == enc_loc) or (via[0] == 'term' and ((loc_of(via[1]) == enc_loc) or (is_call(via[1], name='is_some') and loc_of(strip_refs(via[1][2][0])) == enc_loc))))
+            okfa = via is not None and ((via[0] == 'loc' and via[1] == enc_loc) or (via[0] == 'term' and ((loc_of(via[1]) == enc_loc) or (is_call(via[1]) and via[1][3] in ('is_some', 'map') and 'Option' in via[1][1] and loc_of(strip_refs(via[1][2][0])) == enc_loc))))
             R.check(okfa, 'C01.R1', 'finish-gets-encoding', site(ei, fb), 'what decides the flag byte comes from encode_item\'s encoding parameter: %s' % ((str(fa) if via and via[0] == 'loc' else (show(fa) if fa else None)),))
         R.floor('C01.R1', 'Encoder::encode sites', len(encs), 2)
         sg = tonic.sig('codec::encode::encode_item')
@@ -387,7 +387,17 @@ def run_layout(R, tonic):
                 matched = any(op_ == '==' and v_ == rb_discr for sub_, op_, v_ in cons_)
                 okp = okp and (matched or any(x_ in sets_rb for x_ in path_))
             okp = okp and npaths >= 1
-            okl = any(tm[0] == 'bin' and tm[1] == 'Lt' and is_call(strip_refs(tm[2]), name='remaining') and term_contains(tm[3], lambda x: x and x[0] == 'variant' and x[2] == 'ReadBody') and vals == [0] for s, vals, tm in gs)
+            # remaining() < len false | len > remaining() false | remaining() >= len true — on the decode buffer, whose remaining() is its len()
+            def full_msg(tm, vals):
+                o_ = mirlib.norm_cmp(tm)
+                avail = lambda x: is_call(strip_refs(x)) and strip_refs(x)[3] in ('remaining', 'len') and mentions_field(x, decode_buf_fields(tonic)[0])
+                want = lambda x: term_contains(x, lambda y: y and y[0] == 'variant' and y[2] == 'ReadBody')
+                if o_[0] == 'bin' and o_[1] == 'Gt' and want(o_[2]) and avail(o_[3]):
+                    return vals == [0]
+                if o_[0] == 'bin' and o_[1] == 'Ge' and avail(o_[2]) and want(o_[3]):
+                    return vals == ['else'] or 0 not in vals
+                return False
+            okl = any(full_msg(tm, vals) for s, vals, tm in gs)
             R.check(okp and okl, 'C01.R7', 'view-needs-readbody-and-full-message', site(dc, vb), 'in ReadBody: %r; behind false edge of remaining() < len: %r' % (okp, okl))
         sadt = tonic.adt('codec::decode::State')
         R.eq([v['name'] for v in sadt['variants']], ['ReadHeader', 'ReadBody', 'Error'], 'C01.R7', 'state-variants', 'tonic/src/codec/decode.rs', 'State variants')
